@@ -185,6 +185,17 @@ func main() {
 	for _, g := range []string{"SELECT 'unterminated", "SELECT a FROM t\nWHERE b = \"open", "SELECT a,\n  b ^^ FROM t", "SELECT a FROM t WHERE x = 'a\nb", "SELECT 1e FROM t", "SELECT $tag$ never closed", "SELECT /* never closed"} {
 		byStage["lex"] = append(byStage["lex"], input{"lex", g, "garbage"})
 	}
+	// every character after a backslash in a string literal, followed by what a fixed-width escape would not take: a
+	// rejected escape is a lexical problem whichever letter it is (accepted ones are not judged here)
+	for c := byte(0x21); c < 0x7f; c++ {
+		if c == '\'' {
+			continue
+		}
+		for _, tail := range []string{"", "1", "12G4", "zz", "{"} {
+			byStage["lex"] = append(byStage["lex"], input{"lex", "SELECT 'a\\" + string(c) + tail + "' FROM t", "escape:" + string(c)})
+		}
+		byStage["lex"] = append(byStage["lex"], input{"lex", "SELECT 'a\\" + string(c), "escape-at-end:" + string(c)})
+	}
 	// the pools also hold a sample of Select.tla's statement forms
 	run.Extra["model_statements_in_pools"] = gram.ExportForms(run)
 	_, bad := stmts.Pools()
